@@ -19,6 +19,78 @@ from . import env
 # amount codec
 
 
+import numbers as _numbers
+import operator as _operator
+
+
+class I64(_numbers.Integral):
+    """An integer type that is NOT derived from int (like numpy.int64): every
+    operation answers like int does -- in particular the quotient of two of
+    them is a float."""
+
+    def __init__(self, v):
+        self.v = int(v)
+
+    def __int__(self):
+        return self.v
+
+    def __index__(self):
+        return self.v
+
+    def __hash__(self):
+        return hash(self.v)
+
+    def __repr__(self):
+        return f"I64({self.v})"
+
+    def __float__(self):
+        return float(self.v)
+
+    def __bool__(self):
+        return bool(self.v)
+
+
+def _i64_methods():
+    def val_of(x):
+        return x.v if isinstance(x, I64) else x
+
+    def wrap(r):
+        return I64(r) if type(r) is int else r
+
+    def binary(name, reflected):
+        op = getattr(_operator, name)
+
+        def method(self, other):
+            try:
+                if reflected:
+                    return wrap(op(val_of(other), self.v))
+                return wrap(op(self.v, val_of(other)))
+            except TypeError:
+                return NotImplemented
+        return method
+    for name, opn in (('add', 'add'), ('sub', 'sub'), ('mul', 'mul'),
+                      ('floordiv', 'floordiv'), ('mod', 'mod'),
+                      ('pow', 'pow'), ('lshift', 'lshift'),
+                      ('rshift', 'rshift'), ('and', 'and_'), ('or', 'or_'),
+                      ('xor', 'xor'), ('truediv', 'truediv')):
+        setattr(I64, f'__{name}__', binary(opn, False))
+        setattr(I64, f'__r{name}__', binary(opn, True))
+    for name in ('lt', 'le', 'eq', 'gt', 'ge', 'ne'):
+        setattr(I64, f'__{name}__',
+                (lambda n: lambda self, other: getattr(_operator, n)(
+                    self.v, val_of(other)))(name))
+    I64.__neg__ = lambda self: I64(-self.v)
+    I64.__pos__ = lambda self: I64(self.v)
+    I64.__abs__ = lambda self: I64(abs(self.v))
+    I64.__invert__ = lambda self: I64(~self.v)
+    I64.__trunc__ = I64.__floor__ = I64.__ceil__ = lambda self: self.v
+    I64.__round__ = lambda self, ndigits=None: I64(self.v)
+    I64.__abstractmethods__ = frozenset()
+
+
+_i64_methods()
+
+
 @lru_cache(maxsize=None)
 def dec(code):
     """Spelling -> the Python object handed to the library."""
@@ -33,6 +105,8 @@ def dec(code):
         return F(int(n), int(d or 1))
     if kind == 'f':
         return float(txt)
+    if kind == 'I':
+        return I64(int(txt))
     if kind == 'S':
         return _stddec.Decimal(txt)
     if kind == 's':
@@ -57,7 +131,7 @@ SI_PREFIX_EXP = {'YOCTO': -24, 'ZEPTO': -21, 'ATTO': -18, 'FEMTO': -15,
 def val(code):
     """Spelling -> exact rational value (independent of decimalfp)."""
     kind, _, txt = code.partition(':')
-    if kind == 'i':
+    if kind in ('i', 'I'):
         return F(int(txt))
     if kind in ('D', 'S'):
         return F(_stddec.Decimal(txt))
